@@ -85,7 +85,7 @@ func NewRequestContext(ctx context.Context, req *envoy_auth.CheckRequest) *Reque
 			Fragment: req.GetAttributes().GetRequest().GetHttp().GetFragment(),
 		},
 		reqBody:         req.GetAttributes().GetRequest().GetHttp().GetBody(),
-		reqRawBody:      req.GetAttributes().GetRequest().GetHttp().GetRawBody(),
+		reqRawBody:      requestBody(req),
 		upstreamHeaders: make(http.Header),
 		upstreamCookies: make(map[string]string),
 	}
@@ -99,6 +99,16 @@ func canonicalizeHeaders(headers map[string]string) map[string]string {
 	}
 
 	return result
+}
+
+// requestBody returns the body of the request. envoy sets either body (default) or raw_body
+// (with_request_body.pack_as_bytes: true). Whatever field carries the body, it is the body of the request.
+func requestBody(req *envoy_auth.CheckRequest) []byte {
+	if rawBody := req.GetAttributes().GetRequest().GetHttp().GetRawBody(); len(rawBody) != 0 {
+		return rawBody
+	}
+
+	return []byte(req.GetAttributes().GetRequest().GetHttp().GetBody())
 }
 
 func (r *RequestContext) Request() *heimdall.Request {
